@@ -11,7 +11,7 @@ import sys
 import time
 
 VERIF = os.path.dirname(os.path.dirname(os.path.abspath(__file__)))
-SPEC = os.path.join(VERIF, "spec")
+SPEC = os.environ.get("VERIF_SPEC_DIR", os.path.join(VERIF, "spec"))
 HARNESS = os.path.join(VERIF, "harness")
 WORK = os.path.join(VERIF, "work")
 EVID = os.path.join(VERIF, "evidence")
